@@ -15,21 +15,25 @@
 (*   SelFull / SelFresh   selective = full, selective = fresh on every consuming variable (C17)                      *)
 (* A failed predicate prints <<"BAD", case id, operation index, kind, predicate, cause tags>>; nothing else is a     *)
 (* verdict.  The cause tags are those of the abstract system that follows the implementation (Lmm!SolveFlags...).    *)
+(* For TransOk / ConcOk / NoStarv the tags are not the sticky ones: a rejected step carries the tag of a recorded      *)
+(* finding only when that mechanism explains *this* step (Lmm!Pinned: the observed state is what the pinned commit is  *)
+(* known to do there; lost[k] = the variables that starve since an unreleased slot).  A starvation or a transition      *)
+(* that the recorded mechanisms do not produce has no tag (cause=none in the signature of the check).                  *)
 EXTENDS Lmm, Json, IOUtils
 
 Cases == JsonDeserialize(IOEnv.LMM_CASES)
 Kinds == <<"mmsel", "mmfull", "bmf", "fb">>
 KSet  == { Kinds[j] : j \in 1..Len(Kinds) }
 
-VARIABLES h, i, st
-vars == <<h, i, st>>
+VARIABLES h, i, st, lost
+vars == <<h, i, st, lost>>
 
 Case == Cases[h]
 Scale == Case.scale
 SK    == Case.sk
 Eps   == Case.eps
 
-Init == h \in 1..Len(Cases) /\ i = 1 /\ st = [k \in KSet |-> S0]
+Init == h \in 1..Len(Cases) /\ i = 1 /\ st = [k \in KSet |-> S0] /\ lost = [k \in KSet |-> {}]
 
 Rec(k) == Case.runs[k][i]
 OpOf(o) == [op |-> o.op, a |-> o.a, b |-> o.b, c |-> o.c]
@@ -44,8 +48,22 @@ Shape(t, r) == Len(r.pen) = Len(t.alive) /\ Len(r.stg) = Len(t.alive) /\ Len(r.s
 After(k, o) ==
   LET P == Post(st[k], o)
       r == Rec(k) IN
-  IF \E t \in P : Shape(t, r) /\ Matches(t, r) THEN [ok |-> TRUE, s |-> CHOOSE t \in P : Shape(t, r) /\ Matches(t, r)]
-  ELSE LET t0 == CHOOSE t \in P : TRUE IN [ok |-> FALSE, s |-> IF Shape(t0, r) THEN Observed(t0, r) ELSE t0]
+  IF \E t \in P : Shape(t, r) /\ Matches(t, r)
+  THEN [ok |-> TRUE, why |-> "", s |-> CHOOSE t \in P : Shape(t, r) /\ Matches(t, r)]
+  ELSE LET K == Pinned(st[k], o, lost[k]) IN        \* not allowed: is it what a recorded finding does here?
+       IF \E t \in K.P : Shape(t, r) /\ Matches(t, r)
+       THEN [ok |-> FALSE, why |-> K.tag, s |-> CHOOSE t \in K.P : Shape(t, r) /\ Matches(t, r)]
+       ELSE LET t0 == CHOOSE t \in P : TRUE IN
+            [ok |-> FALSE, why |-> "none", s |-> IF Shape(t0, r) THEN Observed(t0, r) ELSE t0]
+
+\* the variables that starve since a slot was not released (suspnorelease), after this step
+LostAfter(k, o, a) == IF a.why = "suspnorelease" /\ o.op = "vpen" THEN Starving(a.s) ELSE Starving(a.s) \cap lost[k]
+\* a starvation is attributed to the recorded finding when the step itself is accounted for and nobody else starves
+StarvTags(k, o, a) ==
+  IF /\ a.why # "none"
+     /\ Starving(a.s) \subseteq LostAfter(k, o, a)
+     /\ \A v \in Vars(a.s) : a.s.stg[v] > 0 => a.s.pen[v] = 0
+  THEN {"suspnorelease"} ELSE {}
 
 ConcOkI(t, r) == /\ ConcurrencyOk(t)
                  /\ \A c \in Cons(t) : r.slack[c] = (IF t.clim[c] < 0 THEN -1 ELSE t.clim[c] - Conc(t, c))
@@ -53,6 +71,7 @@ ConcOkI(t, r) == /\ ConcurrencyOk(t)
 \* t: the abstract system the predicate was evaluated on; its cause tags are printed with the verdict
 Bad(k, what, t) == PrintT(<<"BAD", Case.id, i, k, what, t.flags \cup NowFlags(t)>>)
 Chk(cond, k, what, t) == IF cond THEN TRUE ELSE Bad(k, what, t)     \* (a disjunction would be explored on both sides)
+ChkC(cond, k, what, tags) == IF cond THEN TRUE ELSE PrintT(<<"BAD", Case.id, i, k, what, tags>>)
 
 MaxMinKind(k) == k \in {"mmsel", "mmfull"}
 SolveChecks(k, t, o) ==
@@ -65,15 +84,15 @@ SolveChecks(k, t, o) ==
        /\ (MaxMinKind(k) /\ o.uniq /\ t.pen = o.gpen) => Chk(EqualsExactI(t, val, o.exp, SK, Scale, Eps), k, "Exact", t)
 
 StepKind(k, o) ==
-  IF Rec(k).ok = 0 THEN st[k]                        \* the run of this kind stopped (abort): nothing more to check
+  IF Rec(k).ok = 0 THEN [s |-> st[k], lost |-> lost[k]]   \* the run of this kind stopped (abort): nothing more to check
   ELSE LET a == After(k, OpOf(o))
            t == a.s IN
-       IF /\ Chk(a.ok, k, "TransOk", t)
+       IF /\ ChkC(a.ok, k, "TransOk", IF a.why = "none" THEN {} ELSE {a.why})
           /\ Shape(t, Rec(k)) =>
-               /\ Chk(ConcOkI(t, Rec(k)), k, "ConcOk", t)
-               /\ Chk(NoStarvation(t), k, "NoStarv", t)
+               /\ ChkC(ConcOkI(t, Rec(k)), k, "ConcOk", {})
+               /\ ChkC(NoStarvation(t), k, "NoStarv", StarvTags(k, OpOf(o), a))
                /\ o.op = "solve" => SolveChecks(k, t, o)
-       THEN t ELSE t
+       THEN [s |-> t, lost |-> LostAfter(k, OpOf(o), a)] ELSE [s |-> t, lost |-> LostAfter(k, OpOf(o), a)]
 
 \* C17 on the three max-min runs (compared on the selective system's own state)
 CrossChecks(o, t) ==
@@ -88,9 +107,10 @@ CrossChecks(o, t) ==
 
 Step == /\ i <= Len(Case.ops)
         /\ LET o == Case.ops[i]
-               n == [k \in KSet |-> StepKind(k, o)] IN
-           /\ st' = n
-           /\ CrossChecks(o, n["mmsel"])
+               n == TLCEval([k \in KSet |-> StepKind(k, o)]) IN      \* evaluated once (a lazy function would re-run the checks)
+           /\ st' = [k \in KSet |-> n[k].s]
+           /\ lost' = [k \in KSet |-> n[k].lost]
+           /\ CrossChecks(o, n["mmsel"].s)
         /\ i' = i + 1
         /\ UNCHANGED h
 Spec == Init /\ [][Step]_vars
